@@ -34,7 +34,7 @@ m = {
     "hooks": {
         "guard": "verif",
         "enable": "go test -tags verif,verif_plugin,verif_metrics,verif_canary,verif_rolling,verif_par -overlay /verif/.build/overlay.json (the overlay, derived from the current /repo tree by tools/mkoverlay, substitutes the virtual clock; the tagged zz_verif_*.go files only add exported wrappers)",
-        "baseline_off_cmd": "cd /repo && env GOFLAGS= go test -vet=off -count=1 -timeout 25m ./... && cd /repo/api && env GOFLAGS= go test -vet=off -count=1 -timeout 25m ./...",
+        "baseline_off_cmd": "for m in . api; do (cd /repo/$m && env GOFLAGS= go test -json -vet=off -count=1 -timeout 25m ./...); done",
         "source_commits": [c.split()[0] for c in hook_commits],
         "add_only": True,
     },
